@@ -2,6 +2,17 @@
 """tools/seed_table.py: the table of seeded changes for DESIGN.md section 0.5, from seeded/*/meta.json."""
 import json, os, re
 NOTES = {
+ 'C03-16': 'missed -> using a frozen message as a dictionary key must not change its attributes (nor those of its thawed form)',
+ 'C03-17': 'missed -> values that look at the message while they are being checked (what re-entrant code or another thread would see); every probe judged three times',
+ 'C13-17': 'missed -> the player is made, the clock runs on, then it is iterated: the schedule counts from the start of the iteration',
+ 'C17-17': 'missed -> the charset attribute of a file is changed between construction / load and save',
+ 'C17-18': 'missed -> a load and a save under another charset nested inside a save (through an overridden track iterator)',
+ 'C18-20': 'missed -> a socket port that has sent is closed (close, with-block): the peer receives the bytes and then the disconnect',
+ 'C18-22': 'missed -> one thread in a blocking accept(), another polls the server port: the poll comes back with the message',
+ 'C20-17': 'missed -> one Backend used for a series of calls with the MIDO_DEFAULT_* variables changed in between, each call compared with the same call on a Backend made that instant',
+ 'C20-19': 'missed -> two threads needing a (slowly importing) backend module for the first time at once',
+ 'C11-20': 'caught by disagreement only -> a MultiPort.receive that comes back empty-handed must have asked the device of every open sub-port',
+ 'C16-17': 'caught by disagreement only -> a MidiFile built without tracks starts empty, whatever was built before in the process',
  'C20-15': 'missed, then an uncaught exception in the harness -> set_backend() / set_backend(None) / set_backend(load=True) under MIDO_BACKEND values and the default, exceptions recorded as failures',
  'C20-16': 'missed -> the device list is no longer in alphabetical order and one name stands for two devices',
  'C10-13': 'missed -> ParserQueue fed from several threads under the scheduler (locks found by type, put() as the yield point): per-thread order, nothing lost',
